@@ -39,7 +39,9 @@ def _sum_cells(list_of_cells):
     return out
 
 
-def h_totals(ctx, skeleton, n, drivers, args=None, same_names=False):
+def h_totals(ctx, skeleton, n, drivers, args=None, same_names=False, values=None):
+    """values: concrete overrides (boundary cases: a server whose jobs all store exactly nothing while its storage holds an
+    initial volume, a job that transfers nothing, ...)"""
     spec = M.SKELETONS[skeleton](n, **(args or {}))
     if same_names:
         # distinct objects that share a display name (archetypes all called "Default SSD storage" etc.)
@@ -49,7 +51,7 @@ def h_totals(ctx, skeleton, n, drivers, args=None, same_names=False):
     sym = traffic_syms(spec)
     for d in drivers:
         sym.update(DRIVERS[d](spec))
-    env = M.Env(ctx, symbolic=sym)
+    env = M.Env(ctx, symbolic={k: v for k, v in sym.items() if k not in (values or {})}, values=dict(values or {}))
     if ctx.symbolic:
         ctx.assume_nonzero_divisors = False   # here the divisors are proved non-zero (obligation 5) instead of assumed
     objs = M.build(spec, env)
@@ -175,6 +177,10 @@ def plan(tier, seed):
     p.append(("totals", dict(skeleton="T3", n=2, drivers=["power", "job"])))
     p.append(("totals", dict(skeleton="T2c", n=2, drivers=["intens"])))
     p.append(("totals", dict(skeleton="TX", n=2, drivers=["intens"])))
+    # boundary values: jobs that store / transfer / need exactly nothing, storages with an initial volume and idle power
+    zero = {"job2.data_stored": 0, "st2.base_storage_need": 2, "st2.idle_power": 5, "st.base_storage_need": 1, "job.data_transferred": 0}
+    p.append(("totals", dict(skeleton="T5", n=2, drivers=["intens"], values=zero, args={"type1": "autoscaling", "type2": "serverless"})))
+    p.append(("totals", dict(skeleton="TX", n=2, drivers=["capacity"], values={"job2.data_stored": 0, "st2.base_storage_need": 3, "job3.ram_needed": 0})))
     p.append(("totals", dict(skeleton="TX", n=2, drivers=["job"], args={"shared": True})))      # two countries on one network
     p.append(("totals", dict(skeleton="T1", n=2, drivers=["capacity"])))
     p.append(("totals", dict(skeleton="T5", n=2, drivers=["intens"], same_names=True)))
